@@ -58,6 +58,7 @@ func infoToEntry(i os.FileInfo) Entry {
 
 // ReadAll reads a file to EOF through the afero API (always to EOF: a half-consumed stream keeps the drive, finding O1).
 func ReadAllFile(f afero.Fs, p string) ([]byte, error) {
+	stepBegin()
 	h, err := f.Open(p)
 	if err != nil {
 		return nil, err
